@@ -52,7 +52,7 @@ func vpH_c18_loadkey() {
 	var specs []vpKeySpec
 	var keys []jwk.Key
 	for i := 0; i < n; i++ {
-		kid := vpStrUpTo(1, "a-b")
+		kid := vpStrUpTo(1, "a-b ")
 		good := vpBool()
 		alg := "EdDSA"
 		if !good {
@@ -61,7 +61,7 @@ func vpH_c18_loadkey() {
 		keys = append(keys, vpAbstractKey(true, true, 0, alg, "OKP", kid))
 		specs = append(specs, vpKeySpec{kid: kid, good: good, index: i})
 	}
-	want := vpStrUpTo(1, "a-b")
+	want := vpStrUpTo(2, "a-b ") // ids are compared exactly: a blank or padded id is another id
 	path := vpKeySetFile(vpAbstractSet(keys...))
 	got, err := LoadKey(path, want)
 	vpCleanup()
